@@ -303,6 +303,24 @@ def rebuild_keeps_everything(ctx, rule='SINK'):
     accumulator - otherwise there is a path on which a popped block is in
     neither the description nor (any longer) the unused list."""
     fi = ctx.repo.func('plss_parse:rebuild_sec_within')
+    # the unused list is emptied only on the way into the loop that absorbs it
+    for c in walk_local(fi.node):
+        emptied = None
+        if isinstance(c, ast.Call) and isinstance(c.func, ast.Attribute) and c.func.attr == 'clear' \
+                and 'unused' in norm(c.func.value):
+            emptied = c
+        if isinstance(c, ast.Delete) and any('unused' in norm(t) for t in c.targets):
+            emptied = c
+        if emptied is None:
+            continue
+        loops_after = [l for l in walk_local(fi.node) if isinstance(l, (ast.For, ast.While)) and l.lineno > emptied.lineno]
+        first_loop = min((l.lineno for l in loops_after), default=10 ** 9)
+        rets = [r for r in walk_local(fi.node) if isinstance(r, ast.Return) and emptied.lineno < r.lineno < first_loop]
+        ctx.check(not rets, rule, 'rebuild_sec_within: the unused list is emptied only when its blocks are absorbed',
+                  detail_bad=f"`{norm(emptied)[:50]}` (line {emptied.lineno}) empties the list before the `return` at line "
+                             f"{rets[0].lineno if rets else 0}: on that path (not exactly one tract) every left-over block is "
+                             f"discarded - it is in no tract and, the list being empty, raises no unused_desc flag",
+                  key=f"{rule}|rebuild_sec_within|emptied-before-return", where=common.loc(fi, emptied))
     construct = 'rebuild_sec_within: every absorbed block reaches the stored description'
     loops = [l for l in walk_local(fi.node) if isinstance(l, (ast.While, ast.For)) and 'unused_components' in norm(l)[:80]]
     if not loops:
